@@ -69,7 +69,9 @@ PROPS = {
     "C13": {
         "engine": "storesim",
         # plugin-generated names / output directories: bufgen end to end with scripted plugins, containment oracles only
-        "also": [{"engine": "gensim", "runs": {"quick": 2000, "thorough": 60000}}],
+        "also": [{"engine": "gensim", "runs": {"quick": 2000, "thorough": 60000}},
+                 # write paths under injected write / close / rename failures: cleaning up after a failed write stops at the root
+                 {"engine": "faultsim", "runs": {"quick": 600, "thorough": 20000}}],
         "level": "exploration",
         "runs": {"quick": 8000, "thorough": 400000},
         "max_wall_s": {"quick": 0, "thorough": 1500},
@@ -254,3 +256,25 @@ PROPS["C17"]["rule"] += (" Custom options are sometimes declared inside a messag
 PROPS["C15"]["real"] += ["bufwktstore.GetBucket", "bufmigrate.Migrator.Migrate (incl. the bufcheck rule catalogue it consults)"]
 PROPS["C08"]["real"] += ["the buf dep graph command run in-process (controller, buffetch for directory / archive / proto-file inputs, bufworkspace)"]
 PROPS["C13"]["real"] += ["buf build / buf ls-files run in-process on directory, archive and git inputs (the git binary of the machine is executed for git inputs; skipped where there is none)"]
+
+# wave 12 additions
+PROPS["C09"]["rule"] += (" A third of the directory-layout runs construct some of their processes through the command line's own wiring: bufcli.NewModuleDataProvider / NewCommitProvider on a"
+                         " container carrying that process's environment (one cache directory reached through BUF_CACHE_DIR, XDG_CACHE_HOME or HOME; HOME and the data / config directories differ"
+                         " from process to process). Registry and locker enter through guarded hooks; the lock model is keyed by the lock DIRECTORY the wiring chose, so processes exclude each"
+                         " other exactly when buf gives them the same one. Their disk buckets are unwrapped: the hooks below storageos are their scheduling and fault points. Half of the injected"
+                         " close failures also lose the second half of what was written to that file (a failed write-back).")
+PROPS["C09"]["real"] += ["bufcli cache wiring (cache.go: directories, lock directory, disk providers) for the wired processes"]
+PROPS["C14"]["rule"] += (" One walk in three over a writable disk view is an interleaved walk: its callback is a scheduling point at which another client deletes objects and puts objects atomically"
+                         " (tape-drawn); sometimes the callback reads the object it was handed and returns that read's error. A walk that reports success has visited every object that was"
+                         " present and untouched from before it started until after it ended, each path once, nothing that never existed; a walk whose callback returned an error reports an error.")
+PROPS["C13"]["rule"] += (" Third engine (faultsim, containment oracle only): after every execution of a write path - healthy or under an injected put / write / close / rename failure - the"
+                         " directory that holds the bucket's root (and nothing else) is still there: cleaning up after a failed write stops at the root.")
+PROPS["C13"]["real"] += ["every write path of the C15 engine (storage.Copy*, PutPath, archives, module and commit stores, configuration writers, plugin response writer, buf export, migrate) under injected write failures (third engine, containment oracle only)"]
+PROPS["C08"]["rule"] += (" The v2 workspace is loaded once more with ONE failing Get or Stat (EIO; tape-chosen among the operations of the healthy load; Stat probes of documentation file names"
+                         " excepted): the load or a digest fails, or every digest equals the reference.")
+PROPS["C02"]["rule"] += (" One run in five is a fault run: in its perturbed executions one or two reads fail once (get / read / stat / walk) or the context is cancelled; such a build fails, or writes"
+                         " exactly the baseline's bytes (fault-transparency).")
+PROPS["C15"]["rule"] += (" Half of the injected close failures on disk also lose the second half of what was written to that file.")
+for _p, _names in (("C09", ["wired-process"]), ("C14", ["walk-interleaved-with-writes"]), ("C13", ["root-parent-survived-write-path"]), ("C08", ["workspace-fault-reported"])):
+    for _tier in ("quick", "thorough"):
+        PROPS[_p]["probes_expected"][_tier] = PROPS[_p]["probes_expected"][_tier] + _names
